@@ -269,7 +269,7 @@ class LatBndTimeRoundTrip(TimeRoundTrip):
     (date/time reduction, end = begin + 1 h with day roll-over), composed
     with the reader's ConvertCAMxTime"""
     encoding_fragile = True
-    replay_only_labels = ()
+    replay_only_labels = ('payload', 'layout')
 
     def __init__(self, year, T):
         TimeRoundTrip.__init__(self, year, T, False)
@@ -400,6 +400,45 @@ class LatBndTimeRoundTrip(TimeRoundTrip):
                     viol['writer-raised:' + type(ex).__name__] = \
                         repr(ex)[:200]
                     return {'obs': {}, 'violations': viol}
+                # independent walk of the bytes written: record markers tile
+                # the file, record sizes and data payload as the format says
+                import struct
+                blob = open(path, 'rb').read()
+                off, sizes, bodies = 0, [], []
+                while off + 8 <= len(blob):
+                    n, = struct.unpack('>i', blob[off:off + 4])
+                    if n < 0 or off + 8 + n > len(blob) or struct.unpack(
+                            '>i', blob[off + 4 + n:off + 8 + n])[0] != n:
+                        viol['layout'] = 'record markers at byte %d do ' \
+                            'not frame a record' % off
+                        break
+                    sizes.append(n)
+                    bodies.append(blob[off + 4:off + 4 + n])
+                    off += n + 8
+                else:
+                    if off != len(blob):
+                        viol['layout'] = 'trailing bytes after the last record'
+                edges = (('WEST', nr), ('EAST', nr), ('SOUTH', ncol),
+                         ('NORTH', ncol))
+                exp = [304, 60, 16, 40] + [4 * (3 + 4 * n) for _, n in edges]
+                for t in range(self.T):
+                    exp.append(16)
+                    exp += [4 * (12 + n * nz) for _, n in edges]
+                if 'layout' not in viol and sizes != exp:
+                    viol['layout'] = 'record sizes %r, format %r' % (
+                        sizes[:12], exp[:12])
+                if 'layout' not in viol:
+                    k = 8
+                    for t in range(self.T):
+                        k += 1
+                        for ei, (en, n) in enumerate(edges):
+                            if bodies[k][:4] != struct.pack('>i', 1) or \
+                                    bodies[k][44:48] != struct.pack(
+                                        '>i', ei + 1) or bodies[k][48:] != \
+                                    data[en][t].astype('>f4').tobytes():
+                                viol['layout'] = 'data record %d (%s, step ' \
+                                    '%d) differs from the format' % (k, en, t)
+                            k += 1
                 try:
                     g = lateral_boundary(path)
                     t2 = np.array(g.variables['TFLAG'][:, 0, :])
